@@ -57,18 +57,27 @@ EXTRA_VALUES = ["[1]", "[1, 2]", "(1, 2)", "{1, 2}", "{'a': 1, 'b': 2}", "[1.5]"
 
 
 def bounds(tier):
-    return dict(targets=len(TARGETS), atoms=len(values()), flag_sets=4)
+    _TIER[0] = tier
+    return dict(targets=len(TARGETS), atoms=len(values()), flag_sets=4,
+                wrapped_atoms="[a], (a,), [a, a], {'k': a} of every atom" if tier == "thorough" else "no")
 
 
-_VALUES = None
+_VALUES = {}
+_TIER = ["quick"]
 
 
 def values():
-    global _VALUES
-    if _VALUES is None:
+    tier = _TIER[0]
+    if tier not in _VALUES:
         out = []
         seen = set()
-        for v in all_atoms(include_deep=False) + EXTRA_VALUES:
+        base = all_atoms(include_deep=False) + EXTRA_VALUES
+        if tier == "thorough":
+            # every atom once more inside a one- and a two-element container and as a mapping value
+            # (not the memoryviews: nested in a container they are rendered with their address)
+            base = base + [w.format(a) for a in base if "memoryview(" not in a
+                           for w in ("[{}]", "({},)", "[{0}, {0}]", "{{'k': {}}}")]
+        for v in base:
             if v in seen:
                 continue
             seen.add(v)
@@ -78,8 +87,8 @@ def values():
             except Exception:
                 continue
             out.append(v)
-        _VALUES = out
-    return _VALUES
+        _VALUES[tier] = out
+    return _VALUES[tier]
 
 
 UNION_MEMBERS = ["int", "float", "str", "Decimal", "bool", "date", "datetime", "NoneType", "list"]
@@ -219,6 +228,7 @@ def has_time_part(x):
 # ------------------------------------------------------------------------------------------- shards
 
 def run_shard(shard, tier):
+    _TIER[0] = tier
     acc = Acc()
     if shard[0] == "tuple":
         _tuple(acc)
